@@ -28,7 +28,8 @@ def configs(tier, rng):
     if isinstance(alpha, str) and (not kn):
       continue
     allc.append(dict(fam="qbits", bits=bits, integer=integer, kn=kn, ste=ste, f=f, alpha=alpha))
-  for bits, integer, s, iqc, rub, ste, f in itertools.product([2, 4, 6], [0, 1, 2], [None, 1, 2], [True, False], [None, 1.5], [True, False], fs):
+  # slope 2^-s; s = -1 is a slope of 2.0: the constructor accepts any non-negative power of two, and max(slope*x, x) is NOT the leaky ReLU there
+  for bits, integer, s, iqc, rub, ste, f in itertools.product([2, 4, 6], [0, 1, 2], [None, 1, 2, -1], [True, False], [None, 1.5], [True, False], fs):
     if s is not None and s > bits - 1:
       continue
     allc.append(dict(fam="qrelu", bits=bits, integer=integer, slope=s, iqc=iqc, rub=rub, ste=ste, f=f))
@@ -52,7 +53,7 @@ def configs(tier, rng):
   if tier == "thorough":
     return allc
   def key(c):
-    return (c["fam"], c.get("ste"), c.get("slope") is None, c.get("mv") is None, c.get("rub") is None, c.get("iqc"), str(c.get("alpha")), c.get("use01"), c.get("thr"),
+    return (c["fam"], c.get("ste"), None if c.get("slope") is None else (c["slope"] < 0), c.get("mv") is None, c.get("rub") is None, c.get("iqc"), str(c.get("alpha")), c.get("use01"), c.get("thr"),
             c["f"] if (c["fam"] == "qlin" and isinstance(c.get("alpha"), str)) else None)    # every noise factor with a data-dependent linear scale
   return vlib.stratified(allc, key, 90, rng, per=1)
 
@@ -99,7 +100,7 @@ def expr_and_kinks(c):
     st = 2.0 ** (c["integer"] - ub)
     return e, [0.0, -(2.0 ** ub) * st, (2.0 ** ub - 1) * st, 0.5 * st, 1.5 * st]
   if f in ("qrelu", "rpo2"):
-    slope = Fraction(0) if c["slope"] is None else Fraction(1, 2 ** c["slope"])
+    slope = Fraction(0) if c["slope"] is None else Fraction(2) ** (-c["slope"])
     if f == "qrelu":
       nsb = c["bits"] - (0 if c["slope"] is None else 1)
       if c["iqc"]:
